@@ -75,7 +75,8 @@ pub(crate) fn parse(range: Option<&HeaderValue>, len: u64) -> ResolvedRanges {
                     match u64::from_str(&r[hyphen + 1..]) {
                         Err(_) => return ResolvedRanges::None, // unparseable
                         Ok(l) => l,
-                    } + 1,
+                    }
+                    .saturating_add(1), // last-byte-pos may be u64::MAX.
                     len,
                 )
             } else {
